@@ -252,6 +252,7 @@ func c22RunReader(sc *c22Script, st *c22Stats) (viols []c22Viol) {
 	lastKind := ""      // kind of the last operation that consumed >= 1 byte or unread
 	runeSize := -1      // size of the last ReadRune if it is still the last consuming operation
 	pendingUnread := "" // "<family of the op before>" while a nil UnreadByte has not been read back yet
+	pendingCount := 0   // how many bytes were put back by consecutive nil UnreadBytes and not yet verified
 	kinds := map[string]bool{}
 	untracked := false // after an accepted misuse the stream position is undefined: only panics are watched
 
@@ -291,15 +292,16 @@ func c22RunReader(sc *c22Script, st *c22Stats) (viols []c22Viol) {
 		}
 		expect := func(gotb []byte) bool {
 			if pos+len(gotb) > len(data) || !bytes.Equal(gotb, data[pos:pos+len(gotb)]) {
-				if pendingUnread != "" && len(gotb) > 0 && pos+len(gotb) <= len(data) && bytes.Equal(gotb[1:], data[pos+1:pos+len(gotb)]) {
-					// only the byte that UnreadByte put back is wrong; the stream continues correctly
-					// behind it: report and go on, so that the rest of the script is still checked
+				k := min(pendingCount, len(gotb))
+				if pendingUnread != "" && k > 0 && pos+len(gotb) <= len(data) && bytes.Equal(gotb[k:], data[pos+k:pos+len(gotb)]) {
+					// only bytes that UnreadByte put back are wrong; the stream continues correctly
+					// behind them: report and go on, so that the rest of the script is still checked
 					report("stream:unreadbyte-after-"+pendingUnread+"-restores-stale-byte",
 						fmt.Sprintf("op %d %s: returned %q, the source has %q there (stream position %d): the byte put back by UnreadByte is not the last byte consumed", i, op.Op, c22Trunc(gotb), c22Trunc(data[pos:pos+len(gotb)]), pos), i)
-					// from now on the reader believes this byte is part of the stream (a later
-					// UnreadByte restores it again): adopt its view in a private copy
+					// from now on the reader believes these bytes are part of the stream (a later
+					// UnreadByte restores them again): adopt its view in a private copy
 					data = append([]byte{}, data...)
-					data[pos] = gotb[0]
+					copy(data[pos:], gotb[:k])
 					return true
 				}
 				end := min(len(data), pos+len(gotb))
@@ -424,8 +426,8 @@ func c22RunReader(sc *c22Script, st *c22Stats) (viols []c22Viol) {
 			if len(p) > max(op.N, 0) || (err == nil && len(p) != op.N) {
 				report("peek:wrong-length", fmt.Sprintf("op %d Peek(%d) returned %d bytes, err %v", i, op.N, len(p), err), i)
 			}
-			if expect(p) && len(p) > 0 {
-				pendingUnread = ""
+			if expect(p) && len(p) >= pendingCount {
+				pendingUnread, pendingCount = "", 0
 			}
 			if stdOK {
 				sb.Peek(op.N)
@@ -459,6 +461,7 @@ func c22RunReader(sc *c22Script, st *c22Stats) (viols []c22Viol) {
 				if pendingUnread == "" {
 					pendingUnread = c22Family(lastKind)
 				}
+				pendingCount++
 				lastKind, runeSize = "unreadbyte", -1
 			} else {
 				st.unreadsErr++
@@ -502,8 +505,11 @@ func c22RunReader(sc *c22Script, st *c22Stats) (viols []c22Viol) {
 		}
 		if len(got) > 0 || consumedExtra > 0 {
 			pos += len(got) + consumedExtra
-			if !unverified && len(got) > 0 { // bytes dropped by ReadLine verify nothing
-				pendingUnread = ""
+			if !unverified { // bytes dropped by ReadLine verify nothing
+				pendingCount -= len(got)
+			}
+			if pendingCount <= 0 {
+				pendingUnread, pendingCount = "", 0
 			}
 			lastKind = op.Op
 			runeSize = -1
